@@ -261,6 +261,8 @@ func (x *Explorer) runOnce(prefix []int, sigs []uint32, initSleep []int, trace b
 	case e.Panic != nil:
 		first := fmt.Sprint(e.Panic)
 		out.v = Verdict{Outcome: "PANIC", Bad: "panic: " + first + "\n" + e.PanicTr, Key: "panic:" + panicKey(first, e.PanicTr)}
+	case e.HookFail != "":
+		out.v = Verdict{Outcome: "INVARIANT", Bad: "state invariant violated after step " + fmt.Sprint(e.Steps) + ": " + e.HookFail, Key: "invariant:" + e.HookFail}
 	case e.Horizon:
 		out.v = Verdict{Outcome: "HORIZON", Bad: fmt.Sprintf("no termination within %d steps (livelock?)\n%s", maxSteps, e.DeadDump), Key: "horizon"}
 	default:
